@@ -160,7 +160,7 @@ def plan(tier, seed):
         meshes = [[5, 4, 0], [7, 3, 0], [6, 6, 0], [10, 6, 0], [2, 2, 2], [3, 2, 2], [4, 3, 2]]
         nfe = 2100
     else:
-        meshes = [[5, 4, 0], [7, 3, 0], [6, 6, 0], [9, 5, 0], [12, 8, 0], [16, 12, 0], [20, 20, 0], [2, 2, 2], [3, 2, 2],
+        meshes = [[5, 4, 0], [7, 3, 0], [6, 6, 0], [9, 5, 0], [12, 8, 0], [16, 12, 0], [18, 14, 0], [2, 2, 2], [3, 2, 2],
                   [3, 3, 3], [5, 3, 2], [6, 5, 4]]
         nfe = 16000
     kmax = 8 if quick else 12
@@ -192,7 +192,8 @@ def plan(tier, seed):
                                   "fmt": ["csc", "csr", "coo"][int(rng.integers(0, 3))],
                                   "sort": SORTERS[int(rng.integers(0, len(SORTERS)))], "steps": 2 if quick else 3,
                                   "id": int(rng.integers(0, 2 ** 31))})
-    return cases
+    # shards take every 16th case: shuffle so that the expensive meshes do not all land in the same shards
+    return [cases[j] for j in rng.permutation(len(cases))]
 
 
 # ----------------------------------------------------------------------------------------- execution helpers
